@@ -363,4 +363,106 @@ theorem specTree_insert_child {t : T} {infos : List Info} (h : SpecTree t infos)
     hlicfg hxc (hlt li hli) H1 H3
   exact ⟨by omega, by omega, r1, r2, r3⟩
 
+/-! ## lift to `parse` for configs without banner / macro starts -/
+
+/-- no line starts a banner, none starts a macro under syntax ios -/
+def Plain (cfg : Cfg) (ls : List Str) : Prop :=
+  (∀ x ∈ ls, isBannerStart x = false) ∧ (cfg.ios = true → ∀ x ∈ ls, isMacroStart x = false)
+
+theorem parse_plain (cfg : Cfg) (ls : List Str) (hp : Plain cfg ls) (hi : cfg.ignoreBlank = false) :
+    parse cfg ls = { texts := ls, parents := linkByIndent cfg ls, keep := ls.map (fun _ => false) } := by
+  rw [Ccp.Tree.parse_eq_bootstrap, bootstrap, bootstrapFuel_noIgnore cfg hi, link_plain cfg ls hp.1 hp.2]
+
+theorem parse_parentOf (cfg : Cfg) (ls : List Str) (hp : Plain cfg ls) (hi : cfg.ignoreBlank = false)
+    (j : Nat) (hj : j < ls.length) : parentOf (parse cfg ls) j = specParent (ls.map (info cfg)) j := by
+  rw [parse_plain cfg ls hp hi]
+  simp [parentOf, linkByIndent_eq_map, hj]
+
+theorem parse_specTree (cfg : Cfg) (ls : List Str) (hp : Plain cfg ls) (hi : cfg.ignoreBlank = false) :
+    SpecTree (parse cfg ls) (ls.map (info cfg)) := by
+  refine ⟨bootstrap_forest cfg _, ?_, ?_, ?_⟩
+  · rw [parse_plain cfg ls hp hi]; simp [T.size]
+  · intro j hj
+    have : (parse cfg ls).size = ls.length := by rw [parse_plain cfg ls hp hi]; rfl
+    exact parse_parentOf cfg ls hp hi j (by omega)
+  · intro j l hl hc
+    simp only [List.getElem?_map, Option.map_eq_some_iff] at hl
+    obtain ⟨txt, _, rfl⟩ := hl
+    simp only [info, isConfigLine, Bool.and_eq_true, Bool.not_eq_true'] at hc ⊢
+    exact hc.2
+
+theorem plain_insert (cfg : Cfg) (ls : List Str) (k : Nat) (txt : Str) (hp : Plain cfg ls)
+    (hb : isBannerStart txt = false) (hm : cfg.ios = true → isMacroStart txt = false) :
+    Plain cfg (ls.take k ++ txt :: ls.drop k) := by
+  constructor
+  · intro x hx
+    rcases List.mem_append.mp hx with h | h
+    · exact hp.1 x (List.mem_of_mem_take h)
+    · rcases List.mem_cons.mp h with rfl | h
+      · exact hb
+      · exact hp.1 x (List.mem_of_mem_drop h)
+  · intro hios x hx
+    rcases List.mem_append.mp hx with h | h
+    · exact hp.2 hios x (List.mem_of_mem_take h)
+    · rcases List.mem_cons.mp h with rfl | h
+      · exact hm hios
+      · exact hp.2 hios x (List.mem_of_mem_drop h)
+
+
+/-- the parent-index shift caused by inserting a line at `e + 1` -/
+def shiftAfter (e p : Nat) : Nat := if p ≤ e then p else p + 1
+
+/-- **`parse` after a child-level insertion behind the family of `i`** (no banner / macro
+starts, blank lines kept): the new line is a child of `i`, every old line keeps its parent
+(shifted), except possibly a comment directly after the insertion point. -/
+theorem parse_insert_child (cfg : Cfg) (ls : List Str) (i : Nat) (txt : Str)
+    (hp : Plain cfg ls) (hi : cfg.ignoreBlank = false)
+    (hb : isBannerStart txt = false) (hm : cfg.ios = true → isMacroStart txt = false)
+    (hk : children (parse cfg ls) i ≠ []) (hxc : isComment cfg txt = false)
+    (hlt : indent (ls.getD i []) < indent txt)
+    (Hc : ∀ c, c ∈ children (parse cfg ls) i → isConfigLine cfg (ls.getD c []) = true →
+      indent txt ≤ indent (ls.getD c [])) :
+    let e := familyEndpoint (parse cfg ls) i
+    let t' := parse cfg (ls.take (e + 1) ++ txt :: ls.drop (e + 1))
+    i ≤ e ∧ e < ls.length ∧
+    t'.texts = ls.take (e + 1) ++ txt :: ls.drop (e + 1) ∧
+    parentOf t' (e + 1) = i ∧
+    (∀ j, j ≤ e → parentOf t' j = parentOf (parse cfg ls) j) ∧
+    (∀ j, e < j → j < ls.length → ¬ (j = e + 1 ∧ isComment cfg (ls.getD j []) = true) →
+      parentOf t' (j + 1) = shiftAfter e (parentOf (parse cfg ls) j)) := by
+  intro e t'
+  have hst := parse_specTree cfg ls hp hi
+  have hget : ∀ (j : Nat) (l : Info), (ls.map (info cfg))[j]? = some l → j < ls.length ∧ l = info cfg (ls.getD j []) := by
+    intro j l hl
+    simp only [List.getElem?_map, Option.map_eq_some_iff] at hl
+    obtain ⟨x, hx, rfl⟩ := hl
+    have hj := (List.getElem?_eq_some_iff.mp hx).1
+    refine ⟨hj, ?_⟩
+    rw [List.getD_eq_getElem?_getD, hx]; rfl
+  obtain ⟨r0, r1, r2, r3, r4⟩ := specTree_insert_child hst i (info cfg txt) hk hxc
+    (by intro li hli; obtain ⟨_, rfl⟩ := hget i li hli; exact hlt)
+    (by intro c l hc hl hcfg; obtain ⟨_, rfl⟩ := hget c l hl; exact Hc c hc hcfg)
+  have hlen : (ls.map (info cfg)).length = ls.length := by simp
+  rw [hlen] at r1
+  have hnew : (ls.map (info cfg)).take (e + 1) ++ info cfg txt :: (ls.map (info cfg)).drop (e + 1)
+      = (ls.take (e + 1) ++ txt :: ls.drop (e + 1)).map (info cfg) := by simp [List.map_take, List.map_drop]
+  have hp' := plain_insert cfg ls (e + 1) txt hp hb hm
+  have hnl : (ls.take (e + 1) ++ txt :: ls.drop (e + 1)).length = ls.length + 1 := by
+    simp; omega
+  have hpo : ∀ k, k < ls.length + 1 → parentOf t' k
+      = specParent ((ls.map (info cfg)).take (e + 1) ++ info cfg txt :: (ls.map (info cfg)).drop (e + 1)) k := by
+    intro k hk'
+    rw [hnew]; exact parse_parentOf cfg _ hp' hi k (by omega)
+  refine ⟨r0, r1, ?_, ?_, ?_, ?_⟩
+  · show (parse cfg _).texts = _
+    rw [parse_plain cfg _ hp' hi]
+  · rw [hpo _ (by omega)]; exact r2
+  · intro j hj
+    rw [hpo j (by omega), r3 j hj, parse_parentOf cfg ls hp hi j (by omega)]
+  · intro j hej hjl hcm
+    have hl : (ls.map (info cfg))[j]? = some (info cfg (ls.getD j [])) := by
+      simp [List.getElem?_map, List.getD_eq_getElem?_getD, List.getElem?_eq_getElem hjl]
+    rw [hpo (j + 1) (by omega), r4 j _ hej hl hcm, parse_parentOf cfg ls hp hi j hjl]
+    rfl
+
 end Ccp.Tree
